@@ -182,6 +182,10 @@ def coord32 (b : Bytes) : Bytes :=
 def u2fMessage (rpIdHash cdHash credId x y : Bytes) : Bytes :=
   [0x00] ++ rpIdHash ++ cdHash ++ credId ++ ([0x04] ++ coord32 x ++ coord32 y)
 
+/-- `Curve == P-256 ∧ X.BitLen() ≤ 256 ∧ Y.BitLen() ≤ 256` -/
+def u2fCoordinatesFit (crv : Int) (x y : Bytes) : Bool :=
+  crv = 1 && (Bytes.stripZeros x).length ≤ 32 && (Bytes.stripZeros y).length ≤ 32
+
 def verifyU2F (o : AttObj) (cdHash : Bytes) : Prog (Option Result) := do
   match ← unmarshalCertificates o.stmt with
   | .ok [(der, c)] =>
@@ -192,8 +196,9 @@ def verifyU2F (o : AttObj) (cdHash : Bytes) : Prog (Option Result) := do
       | some (d, acd) =>
         match credentialKey acd with
         | some (.ec2 alg crv x y) =>
+          -- steps 4a / 4b: a P-256 key whose coordinates fit the 32 bytes the signed data has room for
+          if !u2fCoordinatesFit crv x y then pure none else
           let msg := u2fMessage d.rpIdHash cdHash acd.credentialId x y
-          let _ := crv
           if ← certCheckSig der c alg msg (getSignature o.stmt) then
             pure (some ⟨"Unknown", [der]⟩)
           else pure none
